@@ -42,6 +42,16 @@ def main(run):
         seen = G.reach(ids[0])
         if not any(target in G.nodes[x]['path'] and '::new' in G.nodes[x]['path'] for x in seen):
             run.violation(f'entry|{root}|iterator', f'{root} does not go through PathImpl::normalized_segments (NormalizedSegmentsImpl::new): the entry points of normalisation no longer share one implementation')
+    # the sequence clause: the step of the normalising fold is the RFC 3986 5.2.4 / Errata 4547 step (Engine S on one loop iteration)
+    from .. import normstep
+    probs, nst = normstep.analyse(P)
+    run.cov['sequence_step_cases'] = nst.get('cases', 0)
+    run.cov['sequence_step_states'] = nst.get('configs', 0)
+    run.cov['sequence_step_iterations_checked'] = nst.get('returns', 0)
+    nb = P.bodies.get(normstep.FN)
+    for pr in probs:
+        run.violation(f'sequence|{pr[:90]}', f'{P.where(nb) if nb else "path.rs"} NormalizedSegmentsImpl::new: {pr}')
+    run.floor('sequence_step_cases', 5, 'abstract cases (stack top x relative) of the normalising step')
     run.floor('path_closure_checks', 20, 'normalize paths whose result language was checked')
     run.floor('kind_checks', 20, 'absolute/relative preservation checks')
     return run.finish('model_checking', {
